@@ -300,14 +300,23 @@ pub struct SwarmOpts {
     pub max_live_fields: usize,
     /// allow zero-size field types
     pub zst: bool,
+    /// also use field names that make the generated module fail to compile (text-level simulation only)
+    pub clashing_names: bool,
 }
 
 impl Default for SwarmOpts {
     fn default() -> Self {
-        SwarmOpts { max_variants: 6, max_live_fields: 10, zst: true }
+        SwarmOpts { max_variants: 6, max_live_fields: 10, zst: true, clashing_names: false }
     }
 }
 
+/// Field names that coincide with identifiers of the generated code or of its glue but still give code that
+/// compiles (checked one by one against the pinned tree).
+const SAFE_ODD_NAMES: &[&str] = &["this", "source", "other", "value", "result", "size", "capacity", "unpacked", "tuple", "serializer", "deserializer", "formatter", "default"];
+/// Names the generated code uses for its own locals, parameters and fields: accepted by the builder and by
+/// `generate()`, but the generated module does not compile once such a field is removed (outside the
+/// precondition of C13). Only the text-level simulator (SIM-D) uses them.
+const CLASHING_NAMES: &[&str] = &["data", "from", "plus", "record", "manually_drop", "seq", "new", "unpack"];
 const PLAIN: &[&str] = &["u8", "u16", "u32", "u64", "u128", "usize", "u8x3", "u16x3", "u32x3", "u64x3", "al16", "p12", "u64x16", "al32", "bool", "char", "f64", "i128", "tup"];
 const ZSTS: &[&str] = &["unit", "u64x0", "tokaz"];
 const TOKENS: &[&str] = &["toka8", "tokb8", "toka3", "toka16", "toka64", "tokah"];
@@ -441,7 +450,14 @@ pub fn gen_plan(rng: &mut Rng, name: &str, opts: &SwarmOpts) -> Plan {
             let entry = type_entry(ty);
             let uninit = entry.copy && rng.below(100) < uninit_pct;
             // sometimes under the name of a field removed earlier (in this transition or before)
-            let name = if !free_names.is_empty() && rng.chance(1, 3) { Some(free_names.remove(rng.below(free_names.len()))) } else { None };
+            let mut name = if !free_names.is_empty() && rng.chance(1, 3) { Some(free_names.remove(rng.below(free_names.len()))) } else { None };
+            if name.is_none() && rng.chance(1, 8) {
+                // names the generated code also uses for its own locals, parameters and fields
+                let odd = if opts.clashing_names && rng.chance(1, 2) { *rng.pick(CLASHING_NAMES) } else { *rng.pick(SAFE_ODD_NAMES) };
+                if !live.iter().any(|&f| names[f] == odd) {
+                    name = Some(odd.to_string());
+                }
+            }
             names.push(name.clone().unwrap_or_else(|| format!("f{}", n_fields)));
             reqs.push(Req::Add { ty: ty.to_string(), uninit, name, via_copy: rng.chance(1, 8) });
             live.push(n_fields);
@@ -526,6 +542,8 @@ pub fn corpus() -> Vec<Plan> {
         p("over_aligned", true, true, vec![add("u8"), add("al32"), add("toka8"), close(Simple), rm(0), addu("al32"), add("string"), close(Simple), rm(1), add("toka16"), close(Simple)]),
         // scalar kinds with invalid bit patterns, floats, a tuple with padding, nested generics, an array of tokens
         p("odd_kinds", true, true, vec![addu("bool"), add("char"), addu("f64"), add("tokarr"), addu("tup"), add("vecstr"), close(Simple), rm(1), rm(3), addu("i128"), add("tokarr"), addu("char"), close(Simple), rm(5), add("vecstr"), addu("bool"), close(Simple)]),
+        // field names that are also locals / parameters / fields of the generated code
+        p("odd_names", true, false, vec![Req::Add { ty: "toka8".into(), uninit: false, name: Some("this".into()), via_copy: false }, Req::Add { ty: "u32".into(), uninit: false, name: Some("value".into()), via_copy: false }, Req::Add { ty: "string".into(), uninit: false, name: Some("other".into()), via_copy: false }, close(Simple), rm(0), Req::Add { ty: "tokb8".into(), uninit: false, name: Some("result".into()), via_copy: false }, Req::Add { ty: "u16".into(), uninit: true, name: Some("size".into()), via_copy: false }, close(Simple), rm(1), rm(2), rm(3), Req::Add { ty: "vecu32".into(), uninit: false, name: Some("source".into()), via_copy: false }, close(Simple)]),
         // zero-size only
         p("zst_only", true, true, vec![add("unit"), add("tokaz"), close(Simple), add("u64x0"), rm(0), close(Simple)]),
     ]
